@@ -273,6 +273,24 @@ def extract(repo):
     for idx, nm in enumerate(['Size', 'Disc', 'Crc']):
         grab('logHeader%sField' % nm, lambda idx=idx: int(header_fields()[0][idx][0]))
         grab('logHeader%sWire' % nm, lambda idx=idx: header_fields()[1][header_fields()[0][idx][1]])
+    # C06: the sequence number `load` / `range_scan` take as their timestamp, and where the store
+    # advances it (the model `Blue.KvsConc` reads at `visible`, set when a writer leaves the wait list)
+    def kvs_read_ts():
+        src = read(repo, 'lsmtk/src/kvs/mod.rs')
+        found = re.findall(r'\(mem,\s*imm,\s*version,\s*state\.(\w+)\)', src)
+        if len(found) != 2 or found[0] != found[1]:
+            raise Missing('read timestamp of load/range_scan: %r' % (found,))
+        return found[0]
+    grab('kvsReadTimestamp', kvs_read_ts)
+    def kvs_visible_advance():
+        src = read(repo, 'lsmtk/src/kvs/mod.rs')
+        src = re.sub(r'#\[cfg\(rescrv_blue_verif\)\]\s*(?:\{.*?\}|[^;]*;)', '', src, flags=re.S)
+        if re.search(r'while\s+!wait_guard\.is_head\(\)\s*\{\s*state\s*=\s*wait_guard\.naked_wait\(state\);\s*\}\s*state\.visible_seq_no\s*=\s*seq_no;\s*drop\(wait_guard\);', src):
+            return 'at-wait-list-head'
+        if 'visible_seq_no' in src:
+            raise Missing('visible_seq_no is not advanced where a writer leaves the wait list')
+        return 'absent'
+    grab('kvsVisibleAdvance', kvs_visible_advance)
     grab('sync42MaxConcurrency', lambda: eval_int(const_int(read(repo, 'sync42/src/lib.rs'), 'MAX_CONCURRENCY')))
     grab('skipfreeDefaultMaxHeight', lambda: eval_int(const_int(read(repo, 'skipfree/src/lib.rs'), 'DEFAULT_MAX_HEIGHT')))
     grab('skipfreeBranching', lambda: eval_int(const_int(read(repo, 'skipfree/src/lib.rs'), 'BRANCHING')))
